@@ -52,6 +52,57 @@ class LeanEnc:
             return ".prose"
         raise TypeError(p)
 
+    # ---- the same object graph with Alternation objects kept as objects (identity), for C14 (Abnf/Heap.lean)
+    def heap(self):
+        """returns (rule lines, alt-object lines by id): the top-level Alternation object of rule k gets id k (when it is
+        not already the top-level object of an earlier rule: then that rule's check fails in Lean, as it must); every other
+        Alternation object gets an id >= number of rules.  Must be called after grammar() (uses the same cache ids)."""
+        P = self.P
+        n = len(self.rules)
+        aid = {}
+        for k, r in enumerate(self.rules):
+            d = getattr(r, "definition", None)
+            if isinstance(d, P.Alternation) and id(d) not in aid:
+                aid[id(d)] = k
+        alts = {}
+        nxt = [n]
+
+        def hx(p):
+            if isinstance(p, P.Rule):
+                return f"(.ref {self.rid[id(p)]})"
+            if isinstance(p, P.Alternation):
+                if id(p) not in aid:
+                    aid[id(p)] = nxt[0]
+                    nxt[0] += 1
+                a = aid[id(p)]
+                if a not in alts:
+                    alts[a] = None  # reserve (cycles cannot occur through objects, only through rules)
+                    alts[a] = f"⟨[{', '.join(hx(q) for q in p.parsers)}], {'true' if p.first_match else 'false'}⟩"
+                return f"(.altRef {a})"
+            if isinstance(p, P.Concatenation):
+                return f"(.cat [{', '.join(hx(q) for q in p.parsers)}])"
+            if isinstance(p, P.Option):
+                return hx(p.parser)
+            if isinstance(p, P.Repetition):
+                k = self.cid[id(p)]
+                mx = "none" if p.repeat.max is None else f"(some {p.repeat.max})"
+                return f"(.rep {k} {p.repeat.min} {mx} {hx(p.element)})"
+            if isinstance(p, P.Literal):
+                if isinstance(p.value, tuple):
+                    return f"(.range {ord(p.value[0])} {ord(p.value[1])})"
+                return f"(.lit [{', '.join(str(ord(c)) for c in p.value)}] {'true' if p.case_sensitive else 'false'})"
+            if isinstance(p, P.Prose):
+                return ".prose"
+            raise TypeError(p)
+        rules = []
+        for r in self.rules:
+            d = getattr(r, "definition", None)
+            ex = getattr(r, "exclude", None)
+            body = "none" if d is None else f"some {hx(d)}"
+            exs = "none" if ex is None else f"some {self.rid[id(ex)]}"
+            rules.append(f"⟨\"\", {body}, {exs}⟩")
+        return rules, alts, nxt[0]
+
     def grammar(self):
         out = []
         k = 0
@@ -205,6 +256,26 @@ def emit_ranked(name, const, rules, P):
     assert len(enc.rules) == len(ordered)
     nullable2, _, _, D2 = certificate(P, ordered)
     mask = sum(1 << k for k, b in enumerate(nullable2) if b)
+    if name == "Bundled":
+        hrules, halts, hnext = enc.heap()
+        nalt = hnext
+        cells = [halts.get(a, None) for a in range(nalt)]
+
+        def atree(lo, hi, ind):
+            if hi == lo:
+                return ".empty"
+            if hi - lo == 1:
+                return f"(.leaf {'none' if cells[lo] is None else '(some ' + cells[lo] + ')'})"
+            mid = (lo + hi + 1) // 2
+            return f"(.node {mid - lo}\n{ind}{atree(lo, mid, ind + ' ')}\n{ind}{atree(mid, hi, ind + ' ')})"
+        htext = (f"-- GENERATED by harness/extract.py from {lib.REPO}/src/abnf - do not edit\n"
+                 "-- the bundled rules as an OBJECT graph: Alternation objects by identity (Abnf/Heap.lean), same rule order and\n"
+                 "-- cache ids as AbnfGen/Bundled.lean; the top-level Alternation object of rule k has id k\n"
+                 "import Abnf.HeapCheck\nset_option maxRecDepth 100000\nnamespace AbnfGen\nopen Abnf Abnf.Heap\n\n"
+                 "def bundledHAlts : ATree :=\n  " + atree(0, nalt, "  ") + "\n\n"
+                 "def bundledHRules : List HRule := [\n  " + ",\n  ".join(hrules) + "\n]\n\n"
+                 f"def bundledHNext : Nat := {hnext}\n\nend AbnfGen\n")
+        write_if_changed(os.path.join(GEN_DIR, "HeapData.lean"), htext)
     names = ", ".join(f'("{type(r).__module__.split(".")[-1]}.{type(r).__name__}.{r.name}", {k})' for k, r in enumerate(ordered))
     text = (f"-- GENERATED by harness/extract.py from {lib.REPO}/src/abnf - do not edit\n"
             "import Abnf.RTree\nset_option maxRecDepth 100000\nnamespace AbnfGen\nopen Abnf\n\n"
